@@ -105,3 +105,25 @@ Example C05_example :
     last_insert (firstn 4 ex_history) (rr_key (ex_rr 297)) = Some (1500000000, 300) /\
     time_of (firstn 4 ex_history) = 4000000000.
 Proof. eexists _, _. split; [vm_compute; reflexivity|]. split; vm_compute; reflexivity. Qed.
+
+(* ---- several threads ---- *)
+From RV Require Base.Locks Cache.CacheConcurrent.
+
+(* The same for concurrent use (Base/Locks.v: any number of threads around the mutex, every event list
+   a schedule; Cache/CacheConcurrent.v): for EVERY schedule, a get executed by any thread -- the k-th
+   body to hold the mutex -- returns only records alive at the instant its body ran: last inserted, in
+   lock order, at t0 with TTL T, now < t0 + T, the reported TTL within the time left.
+   [CacheConcurrent.ops_of 0 ls] is the sequential history of the executed bodies (C15_concurrent_is_history). *)
+Theorem C05_concurrent_get_is_live : forall tb, tie_ok tb -> forall d evs,
+  (forall t o, In (Locks.CallW op Empty_set t o) evs -> CacheConcurrent.is_call o = true) ->
+  let s := CacheConcurrent.crun tb d evs in
+  let ls := rev (Locks.wlog _ _ _ _ s) in
+  forall k l name qt rrs r,
+    nth_error ls k = Some l -> Locks.l_w _ _ l = Get name qt -> Locks.l_out _ _ l = Some (ORRs rrs) -> In r rrs ->
+    exists t0 T,
+      last_insert (firstn (2 * k + 1)%nat (CacheConcurrent.ops_of 0 ls)) (rr_key r) = Some (t0, T) /\
+      Locks.l_time _ _ l < t0 + T * NS_PER_S /\
+      rr_ttl r * NS_PER_S <= t0 + T * NS_PER_S - Locks.l_time _ _ l /\
+      1 <= rr_ttl r /\ rr_name r = name /\ rr_class r = RC_IN.
+Proof. exact CacheConcurrent.concurrent_get_is_live. Qed.
+Print Assumptions C05_concurrent_get_is_live.
